@@ -31,6 +31,7 @@ RULE = (
     "middle and last position), plus seeded random sequences of length<=40 on lists "
     "up to 30.  A case is non-trivial when the list is non-empty or the operation "
     "raised; distinct by (operation, argument class, index class, list size, outcome)."
+    " Every list returned by an operation is probed for independence of its source (editing it must not touch the source, and it stays unchanged while the source is edited)."  # third-session additions
 )
 ASSUMPTIONS = [
     "reference semantics = Python list semantics + uniqueness of ids, with the "
